@@ -41,6 +41,15 @@ struct sched {
 	void good_fail_edge_split(bool ec, bool empty) { if (ec) { answer(503); return; } if (empty) { answer(503); return; } forward(); }
 	void bad_fail_edge(bool ec, bool empty) { if (ec) { if (empty) answer(503); return; } forward(); }
 
+	// moved-from reuse across loop iterations, loop-invariant copy source
+	void take(std::function<void(int)>) {}
+	void bad_move_in_loop(int n) { std::function<void(int)> f = [](int) {}; for (int i = 0; i < n; ++i) take(std::move(f)); }
+	void good_move_fresh_each_time(int n) { for (int i = 0; i < n; ++i) { std::function<void(int)> f = [](int) {}; take(std::move(f)); } }
+	void good_move_then_leave(int n) { std::function<void(int)> f = [](int) {}; for (int i = 0; i < n; ++i) { if (i == 3) { take(std::move(f)); break; } } }
+	char m_src[64]; char m_dst[64];
+	void bad_copy_same_source(int const* lens, int n) { int done = 0; for (int i = 0; i < n; ++i) { __builtin_memcpy(m_dst + done, m_src, lens[i]); done += lens[i]; } }
+	void good_copy_offset(int const* lens, int n) { int done = 0; for (int i = 0; i < n; ++i) { __builtin_memcpy(m_dst + done, m_src + done, lens[i]); done += lens[i]; } }
+
 	[[noreturn]] void fail() { throw std::runtime_error("x"); }
 	int good_noreturn_exit(char const* s) { if (s == nullptr) { fail(); } return *s; }
 	int good_throw_exit(char const* s) { if (s == nullptr) { throw std::runtime_error("y"); } return *s; }
